@@ -9,7 +9,7 @@ INIT = ["math/big", "internal/oserror"]
 PROJ = ["harness/d2compiler/zz_verif_proj.go", "harness/d2compiler/zz_verif_fs.go"]
 FMT = "fmt.Sprintf/Errorf: format parsed by the engine, operands rendered natively or spliced"
 
-def h(pkg, files, func, covers, bounds, quick, thorough, budget=20000000, qwall=900, twall=3600, **kw):
+def h(pkg, files, func, covers, bounds, quick, thorough, budget=20000000, qwall=900, twall=480, **kw):
     d = {"pkg": pkg, "files": files, "func": func, "initrun": INIT, "covers": covers, "budget": budget,
          "bounds": bounds, "quick": {"params": quick, "wall_s": qwall}, "thorough": {"params": thorough, "wall_s": twall}}
     d.update(kw)
@@ -69,7 +69,10 @@ C["C36"] = dict(harnesses=[
 C["C37"] = dict(harnesses=[
     orc("VerifC37CreateSet", ["created", "set", "refused"],
         OB + "; Create of an object or connection key / Set of a label to 1..NV characters over xX1 .'\"$#- : the created key is new and exists, only missing containers are added, the label equals the value exactly, every other element keeps ID, label, shape, parent, endpoints",
-        {"BASES": 6, "COLL": 0, "NV": 1}, {"COLL": 1, "NV": 1})],
+        {"BASES": 6, "COLL": 0, "NV": 1}, {"COLL": 1, "NV": 1}),
+    orc("VerifC37Inherited", ["set"],
+        "six diagrams in which the label or opacity of a does not come from a's own key (a class, a glob, a later re-definition, a connection defined twice and re-labelled through an indexed reference, a class style, a triple-glob style); Set of the label (one character over xX1) or of style.opacity (0.5, 1, 0) on a or on one of the two connections: the element has exactly the given value afterwards, every other element keeps label and opacity, the text is compilable and formatter-stable",
+        {}, {})],
     stubs=[FMT], outside=["style attributes other than through C36", "Create with an explicit connection index"])
 C["C38"] = dict(harnesses=[
     orc("VerifC38Delete", ["object", "edge", "noop"],
@@ -79,12 +82,15 @@ C["C38"] = dict(harnesses=[
 C["C39"] = dict(harnesses=[
     orc("VerifC39Move", ["moved", "refused"],
         "first 4 base diagrams and the collision family; Rename to one of z,b,a,B,'x y',c and Move to any key of the menu (not into the object's own subtree) with and without descendants: all objects and connections kept with labels, shapes, endpoints; only the moved object and followers change ID; unmoved children go to the former parent; only containers on the destination path are created",
-        {"BASES": 4, "COLL": 1, "CN": 3}, {"BASES": 4, "COLL": 1, "CN": 4}, twall=7200)],
+        {"BASES": 4, "COLL": 1, "CN": 3}, {"BASES": 4, "COLL": 1, "CN": 4}, twall=480),
+    orc("VerifC39FlatKeys", ["moved"],
+        "five diagrams with objects declared through flat keys (a.b: LB {c}, a.b.c: LC, a.b with a separate style line) or carrying styles inside containers; Move of a, a.b, a.b.c, p.a, a.c or p.a.c to the top level, into x or into x.y (a container that does not exist yet), with and without descendants: every label and fill of the diagram is still present exactly as often, the moved object keeps its label under its new ID, the text is compilable and formatter-stable",
+        {}, {})],
     stubs=[FMT], outside=["moving an object into its own subtree (not a valid move; d2oracle does not reject it)", "diagrams whose labels are implicit"])
 C["C40"] = dict(harnesses=[
     orc("VerifC40Deltas", ["predicted", "refused"],
         "first 4 base diagrams and the collision family; DeleteIDDeltas/RenameIDDeltas/MoveIDDeltas/ReconnectEdgeIDDeltas against the edit itself: every surviving element has the predicted ID or keeps its own, nothing is predicted for removed or unknown elements",
-        {"BASES": 4, "COLL": 1, "CN": 3}, {"BASES": 4, "COLL": 1, "CN": 4}, twall=7200)],
+        {"BASES": 4, "COLL": 1, "CN": 3}, {"BASES": 4, "COLL": 1, "CN": 4}, twall=480)],
     stubs=[FMT], outside=["diagrams whose labels are implicit", "edits addressed to nested boards"])
 C["C41"] = dict(harnesses=[
     orc("VerifC41Boards", ["edited", "refused"],
